@@ -1,5 +1,5 @@
 // conv.cpp — correspondence harness for property C17 (relations and conversions between groups).
-// Includes /repo/include directly and calls the real code in-process.  One protocol line per
+// Includes the include tree of the repository under test (vlib.REPO, -I flag) and calls the real code in-process.  One protocol line per
 // evaluated operation:   op grp prec <inputs> | <implementation outputs> # stratum
 //
 //   ./conv <n>      generation (VERIF_SEED from the environment), both scalar types
